@@ -46,7 +46,7 @@ def cases(draw, tier="quick"):
     nby = int(np.prod(by_shape))
     ntot = int(np.prod(shape))
     vals = gen.draw_values(draw, ntot, dt, func, nan_p=0.25)
-    lab = gen.draw_labels(draw, nby, kinds=["int", "float", "str", "negint"], max_groups=4)
+    lab = gen.draw_labels(draw, nby, kinds=["int", "float", "str", "negint", "u1"], max_groups=4)
     labv = lab["spec"]["v"]
     # concentrate missing labels / one group in one slice along the first label dim
     if lab["kind"] == "float" and by_shape[0] > 1 and draw(st.booleans()):
